@@ -18,7 +18,7 @@ func checkC13(r *Run) {
 	r2 := r.Rule("R-C13-2", "classification order: parent ctx.Done() test (=> ctx.Err()) precedes the timeout-context test (=> ErrPingTimeout), else the ping error; the timeout context is not cancelled before its test")
 	r3 := r.Rule("R-C13-3", "reconnect loop: KeepAlive started iff PingInterval > 0 for the iteration's own client; failure => SetErrorOnce + Close on that client; keep-alive context cancelled on every exit of the connected phase")
 	r4 := r.Rule("R-C13-4", "Ping honours its context (three-way select) and registers its PINGRESP waiter before writing")
-	r2.Floor(4)
+	r2.Floor(3)
 	ka := c.Func("KeepAlive")
 	if ka == nil {
 		r1.Lost("KeepAlive", "not found")
@@ -191,7 +191,7 @@ func (c *Ctx) ruleKeepAliveClassify(rr *RuleRep, ka *ssa.Function, ctx, ctxTo ss
 			n++
 			ev := c.errResult(ret)
 			cause := ev
-			if call, callee := c.asCall(ev); call != nil && callee != nil && callee.Pkg == c.Pkg && (callee.Name() == "wrapError" || callee.Name() == "wrapErrorf") {
+			if call, callee := c.asCall(ev); call != nil && callee != nil && callee.Pkg == c.Pkg && c.isWrapFn(callee) {
 				cause = call.Call.Args[0]
 			}
 			if pred(cause) {
